@@ -195,7 +195,8 @@ pub fn gen_config(prop: &str, tier: Tier, rng: &mut Rng) -> Config {
         }
         "C06" => {
             c.workers = rng.range(1, 2) as usize;
-            c.shutdown_timeout_s = rng.range(0, 5);
+            c.shutdown_timeout_s = if rng.chance(1, 12) { u64::MAX } else { rng.range(0, 5) };
+            c.freeze = rng.chance(1, 4);
             c.stop = true;
             c.advance = true;
             c.signals = rng.chance(1, 3);
@@ -618,7 +619,7 @@ fn check_graceful_not_early(sim: &Sim, what: &str) {
         return;
     }
     let now = sim.now_ms();
-    let deadline = sim.o.t_stop + sh.cfg.shutdown_timeout_s * 1000;
+    let deadline = sim.o.t_stop.saturating_add(sh.cfg.shutdown_timeout_s.saturating_mul(1000));
     if now >= deadline {
         sh.ctx(|ctx| ctx.bump("probe.graceful_completed_by_timeout"));
         return;
@@ -831,6 +832,9 @@ pub async fn drain_and_final(sim: &mut Sim) {
     let prop = sh.prop.clone();
     sh.ctx(|ctx| ev!(ctx, "-- drain --"));
     sh.draining.set(true);
+    for w in sh.workers.borrow_mut().iter_mut() {
+        w.frozen = false;
+    }
     sh.armed_fault.set(None);
     sh.panic_next_call.set(None);
     sim.settle();
@@ -875,7 +879,7 @@ pub async fn drain_and_final(sim: &mut Sim) {
     }
     if sim.o.stop_issued {
         // let a graceful shutdown run to its end
-        for _ in 0..(sh.cfg.shutdown_timeout_s + 3) {
+        for _ in 0..(sh.cfg.shutdown_timeout_s.min(8) + 3) {
             if sim.server.is_none() {
                 break;
             }
@@ -1144,8 +1148,10 @@ async fn final_c06(sim: &mut Sim) {
     }
     // keep advancing: graceful completes when the workers are idle or at the timeout (plus the
     // 1 s worker tick), forced at once; signal mode adds the 300 ms exit delay
-    let t = sh.cfg.shutdown_timeout_s;
-    let release_first = sh.chooser(|ch| !ch.taken.is_empty() && ch.taken.len() % 2 == 0);
+    // an unbounded timeout: the graceful stop ends when the connections do
+    let unbounded = sh.cfg.shutdown_timeout_s > 1000;
+    let t = sh.cfg.shutdown_timeout_s.min(8);
+    let release_first = unbounded || sh.chooser(|ch| !ch.taken.is_empty() && ch.taken.len() % 2 == 0);
     if release_first {
         release_all(sim);
         sim.settle();
